@@ -307,7 +307,7 @@ func (c *Conn) Read(b []byte) (int, error) {
 	if !c.readPassthrough && len(c.readBuf) == 0 && c.readErr == nil {
 		r, err := readRecord(c.Conn)
 		if len(r) >= 5 {
-			if r[0] == 22 {
+			if r[0] == 22 && len(r) > 5 {
 				c.debugf("Read %s(%d) %s\n", contentType(r[0]), r[0], handshakeMessageTypes[r[5]])
 			} else {
 				c.debugf("Read %s(%d)\n", contentType(r[0]), r[0])
@@ -319,7 +319,7 @@ func (c *Conn) Read(b []byte) (int, error) {
 			c.readErr = err
 		case r[0] == 23:
 			c.readPassthrough = true
-		case r[0] == 22 && r[5] == 1 && c.retryCount.Load() == 1:
+		case r[0] == 22 && len(r) > 5 && r[5] == 1 && c.retryCount.Load() == 1:
 			c.debugf("Handshake Retried ClientHello\n")
 			c.readPassthrough = true
 			_, inner, err := c.handleClientHello(r, true)
